@@ -343,9 +343,13 @@ impl Index for HnswIndex {
     }
 
     fn insert_batch(&mut self, entries: &[(TupleId, Vec<f32>)]) -> Result<(), String> {
+        // Entries before an invalid one stay stored (as with repeated `insert`), so the
+        // graph is rebuilt in every case, not only when the whole batch was accepted
+        let mut stored = Ok(());
         for (id, vector) in entries {
             if vector.is_empty() {
-                return Err("Cannot insert empty vector into HNSW index".to_string());
+                stored = Err("Cannot insert empty vector into HNSW index".to_string());
+                break;
             }
             if matches!(
                 self.config.metric,
@@ -353,9 +357,10 @@ impl Index for HnswIndex {
             ) {
                 let norm: f32 = vector.iter().map(|x| x * x).sum::<f32>().sqrt();
                 if norm <= 1e-10 {
-                    return Err(
+                    stored = Err(
                         "Cannot insert zero-norm vector for cosine/dot product metric".to_string(),
                     );
+                    break;
                 }
             }
             {
@@ -363,11 +368,12 @@ impl Index for HnswIndex {
                 if *dim == 0 {
                     *dim = vector.len();
                 } else if *dim != vector.len() {
-                    return Err(format!(
+                    stored = Err(format!(
                         "Dimension mismatch: index has dimension {}, got vector of dimension {}",
                         *dim,
                         vector.len()
                     ));
+                    break;
                 }
             }
             {
@@ -386,7 +392,8 @@ impl Index for HnswIndex {
             self.tombstones.write().remove(id);
         }
         // Single rebuild after all inserts (key optimization)
-        self.rebuild_hnsw()
+        let rebuilt = self.rebuild_hnsw();
+        stored.and(rebuilt)
     }
 
     fn delete(&mut self, id: TupleId) {
